@@ -136,6 +136,29 @@ def _check_case(durs, cols, off, res, light_too=True):
                     break
     except Exception as e:
         res.violation(f"C17|n={len(durs)}|route|raises:{type(e).__name__}", repr(e), dict(case0))
+    # (c) a light is given a cycle that EQUALS the one it has but is another object, and that object is edited afterwards: the light follows the
+    #     cycle it was given.  (d) two cycles constructed from one Python list; one of them is then assigned a new element list: the other keeps
+    #     its definition
+    try:
+        light2 = TrafficLight(9, np.array([0.0, 0.0]), mk())
+        light2.get_state_at_time_step(off)
+        given = mk()
+        light2.traffic_light_cycle = given
+        given.time_offset = off + 2
+        one_list = [TrafficLightCycleElement(c, d) for c, d in zip(cols, durs)]
+        c1, c2 = TrafficLightCycle(one_list, time_offset=off), TrafficLightCycle(one_list, time_offset=off)
+        c1.cycle_elements = [TrafficLightCycleElement(c, d) for c, d in zip(cols[::-1], durs[::-1])] + [TrafficLightCycleElement(cols[0], 1)]
+        exp_c1 = expanded[::-1] + [cols[0]]
+        for t in ts:
+            for lab, obj, e in (("light-given-an-equal-cycle-that-is-edited-later", light2, expanded[(t - off - 2) % T]),
+                                ("cycle-sharing-its-list-with-a-reassigned-cycle", c2, expanded[(t - off) % T]), ("reassigned-cycle", c1, exp_c1[(t - off) % (T + 1)])):
+                res.evals += 1; res.transitions += 1
+                got = obj.get_state_at_time_step(t)
+                if got != e:
+                    res.violation(f"C17|n={len(durs)}|route:{lab}|wrong-state", f"{case0} t={t}: got {got} expected {e}", dict(case0, t=t))
+                    break
+    except Exception as e:
+        res.violation(f"C17|n={len(durs)}|route|raises:{type(e).__name__}", repr(e), dict(case0))
     # the statement quantifies over every cycle: the 'active' flag (constructor argument and public setter, on the cycle and on the light)
     # is not part of the cycle definition and must not change the reported state
     try:
